@@ -867,6 +867,7 @@ def check_spherical(fx, R, S):
         _spherical_back(fx, R, S, rd, fh, sp.ImmutableMatrix(list(want) + [1]), want, r, a, e, '/homogeneous')
     check_scalar_transforms(fx, R, S)
     check_point_transforms(fx, R, S)
+    check_to_homogeneous(fx, R, S)
 
 
 def check_scalar_transforms(fx, R, S):
@@ -977,6 +978,63 @@ def check_point_transforms(fx, R, S):
                 R.undecided('R6', inst, unknown)
             else:
                 R.holds('R6', inst, 'returns the coordinate it is named after on %d witness points' % len(wit3), fx.rel(f['loc']), 'E-ORD')
+    return n
+
+
+def check_to_homogeneous(fx, R, S):
+    """R6: toHomogeneous(PolarCoordinates) / toHomogeneous(SphericalCoordinates) - overloads of their own, not wrappers of toCartesian - read on witness points: they must give the Cartesian point with
+    a homogeneous coordinate of 1."""
+    def hook(rd, e, st, ctx):
+        if e.get('k') == 'Construct' and 'HomogeneousCoordinates' in (e.get('cls') or '') and len(e.get('args', [])) in (2, 3):
+            out = []
+            for (vals, s2) in rd.evs(e['args'], st, ctx):
+                if not all(isinstance(v_, sp.Basic) for v_ in vals):
+                    return NotImplemented
+                out.append((sp.ImmutableMatrix(list(vals) + [sp.Integer(1)]), s2))
+            return out
+        return mat.hook(rd, e, st, ctx)
+    wit = [(sp.Rational(7, 4), sp.Rational(-11, 10), sp.Rational(6, 5)), (sp.Integer(3), sp.Rational(5, 2), sp.Rational(1, 3)), (sp.Rational(1, 100), sp.Rational(2, 7), sp.Rational(29, 10)), (sp.Integer(5), sp.Integer(0), sp.pi / 2)]
+    n = 0
+    for g in sorted((g for g in fx.functions.values() if g['name'] == 'toHomogeneous' and g.get('body') is not None and len(g.get('params', [])) == 1
+                     and ('PolarCoordinates<%s>' % S in g['sig'].split('(')[1] or 'SphericalCoordinates<%s>' % S in g['sig'].split('(')[1])), key=lambda g: g['sig']):
+        sph = 'SphericalCoordinates<' in g['sig'].split('(')[1]
+        inst = 'toHomogeneous(%s<%s>)' % ('Spherical' if sph else 'Polar', S)
+        R.used(g)
+        n += 1
+        bad = unknown = None
+        for (r_, a_, e_) in wit:
+            arg = {'range_': r_, 'azimut_': a_}
+            want = [r_ * sp.cos(a_), r_ * sp.sin(a_), sp.Integer(1)]
+            if sph:
+                arg['elevation_'] = e_
+                want = [r_ * sp.cos(a_) * sp.sin(e_), r_ * sp.sin(a_) * sp.sin(e_), r_ * sp.cos(e_), sp.Integer(1)]
+            try:
+                sts = sym.Reader(fx, call_hook=hook, member_hook=mat.member_hook).run(g)
+            except sym.Unsupported as u:
+                unknown = str(u)
+                break
+            if len(sts) != 1 or not isinstance(sts[0].ret, sp.MatrixBase) or len(sts[0].ret) != len(want):
+                unknown = 'result not readable: %s' % (str(sts[0].ret)[:80] if sts else None)
+                break
+            subs_ = {y_: arg[k_] for y_ in sts[0].ret.free_symbols for k_ in arg if y_.name.endswith(k_)}
+            if set(sts[0].ret.free_symbols) - set(subs_):
+                unknown = 'result depends on %s' % sorted(str(y_) for y_ in set(sts[0].ret.free_symbols) - set(subs_))[:2]
+                break
+            try:
+                d = max(abs(sp.N(sts[0].ret[i_].subs(subs_) - want[i_], 30)) for i_ in range(len(want)))
+            except Exception:
+                unknown = 'not evaluable on the witness point'
+                break
+            if not (d.is_real and d < sp.Float('1e-12') * (1 + abs(sp.N(r_)))):
+                bad = bad or ((r_, a_, e_) if sph else (r_, a_), [sp.N(v_.subs(subs_), 6) for v_ in sts[0].ret], [sp.N(v_, 6) for v_ in want])
+        if bad:
+            R.violated('R6', '%s:value' % inst.split('<')[0].rstrip('(') + ')', 'for the point (range, azimut%s) = %s, %s returns %s; the Cartesian point with homogeneous coordinate 1 is %s: this overload is not the '
+                       'inverse of the Cartesian-to-%s conversion (it is a function of its own, not a wrapper of toCartesian) [%s]' % (', elevation' if sph else '', tuple(str(v_) for v_ in bad[0]), inst, bad[1], bad[2],
+                                                                                                                                    'spherical' if sph else 'polar', S), fx.rel(g['loc']), 'E-ORD')
+        elif unknown:
+            R.undecided('R6', inst, unknown)
+        else:
+            R.holds('R6', inst, 'gives (toCartesian(point), 1) on %d witness points' % len(wit), fx.rel(g['loc']), 'E-ORD')
     return n
 
 
